@@ -49,7 +49,7 @@ def cmp_fn(ctx, construct, rel, qual, spec_src, opts=None, holes=None, name=None
         if got != exp and 'unroll' not in kw:
             # loops with a small constant trip count written in different styles (for w in W / for k in range(len(W)))
             # have the same unrolled form: equal unrolled terms are the same computation
-            for n in (8, 32):
+            for n in (8, 32, 160):
                 try:
                     g2 = ctx.fn_term(rel, qual, opts=opts, unroll=n, **kw)
                     e2 = ctx.spec_term(spec_src, opts=opts, name=name, unroll=n, **kw)
